@@ -89,6 +89,7 @@ func (m *Matcher) Loop() {
 			break
 		}
 		verifPoint("matcher.request", 0)
+		verifTrace("matcher.request", int(request.seq), 0, "")
 
 		cacheCleared := false
 		if request.sort != m.sort || request.revision != m.revision {
@@ -126,9 +127,11 @@ func (m *Matcher) Loop() {
 
 		if cancelled {
 			verifPoint("matcher.cancelled", 0)
+			verifTrace("matcher.cancelled", int(request.seq), 0, "")
 		}
 		if !cancelled {
 			verifPoint("matcher.publish", merger.Length())
+			verifTrace("matcher.publish", int(request.seq), merger.Length(), verifPtr(merger))
 			if merger.cacheable() {
 				m.mergerCache[patternString] = merger
 			}
@@ -264,6 +267,7 @@ func (m *Matcher) Reset(chunks []*Chunk, patternRunes []rune, cancel bool, final
 		event = reqRetry
 	}
 	seq := atomic.AddUint64(&m.seq, 1)
+	verifTrace("matcher.reset", int(seq), verifFlags(cancel, final), string(patternRunes))
 	m.reqBox.Set(event, MatchRequest{chunks, pattern, final, sort, revision, seq})
 }
 
